@@ -164,7 +164,9 @@ func (g zzGraph) zzReference(env map[string]tensor.Tensor) (map[string]tensor.Te
 			if !ok {
 				return nil, ErrModel("reference: no tensor for %v", name)
 			}
-			in = append(in, t)
+			// every operator gets private copies: the reference is about VALUES, so an operator that
+			// writes into one of its inputs cannot influence what a later node reads here
+			in = append(in, t.Clone().(tensor.Tensor))
 		}
 		in, err = op.ValidateInputs(in)
 		if err != nil {
